@@ -238,6 +238,15 @@ func runCase(m *mon.M, c *Case) {
 			inner := auth
 			auth = rt.ClientAuthInfoWriterFunc(func(req rt.ClientRequest, reg strfmt.Registry) error {
 				_ = req.GetBody() // a signer looks at what will be sent
+				// ... and canonicalises its own copy of the query (GetQueryParams documents a copy)
+				q := req.GetQueryParams()
+				for k := range q {
+					sort.Strings(q[k])
+					for i := range q[k] {
+						q[k][i] = strings.ToLower(q[k][i])
+					}
+				}
+				q.Set("x-signer-scratch", "1")
 				if inner != nil {
 					return inner.AuthenticateRequest(req, reg)
 				}
